@@ -66,7 +66,10 @@ def Race (cls : List Nat) (hb : Event → Event → Prop) (a b : Event) : Prop :
 `Generated/Access.lean` lists every acquisition of a lock made while another lock is held (`LockEdge`), as
 extracted from the source: lexically nested `Lock`/`RLock` calls, bbolt transactions (`bbolt.rw` = the
 single-writer lock held by `db.Update`/`db.Batch`, `bbolt.ro` = the mmap read lock held by `db.View`), and
-acquisitions made by a function called — transitively — from inside the critical section.  Locks are named by
+acquisitions made by a function called — transitively — from inside the critical section.  The event loop of a
+torrent is the pseudo-lock `torrent.loop`: `torrent.run` holds it while it handles an event, and a function that
+waits for the loop to take a command or to exit (`sendCommand`, `recvResponse`, `<-t.doneC`, also on a goroutine
+the function then joins with a `WaitGroup`) acquires it.  Locks are named by
 owner type and field, so all instances of one field are one node, and a read lock is the same node as the write
 lock of its `RWMutex`: `RLock` inside `RLock` of the same mutex deadlocks as soon as a writer waits in between.
 A potential deadlock is a cycle of the graph on lock names; a self-edge is a cycle. -/
